@@ -704,7 +704,7 @@ func main() {
 			fmt.Sscan(os.Getenv("C13_DEADLINE"), &deadline)
 			for i := j; i < cases.Len(); i += nJobs {
 				if deadline > 0 && time.Now().Unix() > deadline {
-					run.NotExhaustive(fmt.Sprintf("global time budget reached in job %d at case %d of %d", j, i, cases.Len()))
+					run.Add("cases_skipped_by_time_budget", int64((cases.Len()-i+nJobs-1)/nJobs))
 					break
 				}
 				if c := cases.At(i); !isPrepass(c) {
@@ -720,6 +720,12 @@ func main() {
 	if thorough {
 		budget = 50 * time.Minute
 	}
+	if b := os.Getenv("C13_BUDGET_MIN"); b != "" { // override of the global time budget, in minutes
+		var m int
+		if fmt.Sscan(b, &m); m > 0 {
+			budget = time.Duration(m) * time.Minute
+		}
+	}
 	os.Setenv("C13_DEADLINE", fmt.Sprint(time.Now().Add(budget).Unix()))
 	dl := budget + 5*time.Minute
 	onCrash := func(job, output string) *ev.Violation {
@@ -733,6 +739,9 @@ func main() {
 		jobs = append(jobs, fmt.Sprint(j))
 	}
 	run.Parallel(jobs, 0, dl, onCrash)
+	if sk, _ := run.Coverage["cases_skipped_by_time_budget"].(int64); sk > 0 {
+		run.NotExhaustive(fmt.Sprintf("global time budget of %v reached: %d of %d cases not run (overloaded machine?)", budget, sk, cases.Len()))
+	}
 
 	nText, nOpt := 0, 0
 	tx := map[string]bool{}
